@@ -46,7 +46,7 @@ CONSTANTS NT,        \* number of timer objects; Timers == 1..NT
                      \* (with 2 one _grow would add a single word: TLC refutes HeapOrder at once)
           MaxSeg,    \* segments available to the memory model (enough for NT timers)
           Mut,       \* "none" or the name of a spec mutation (non-vacuity runs)
-          Emit,      \* "" or a file name: every transition is appended to it (test vectors)
+          Emit,      \* "" or a file name: test vectors are appended to it (EmitState / EmitHist)
           SimLen     \* simulation mode: length of the emitted behaviours
 
 Timers == 1..NT
@@ -294,14 +294,10 @@ Init == /\ h = EmptyHeap /\ key = [t \in Timers |-> <<0, 0>>] /\ ref = {} /\ npo
         /\ hist = <<>> /\ dir = "up"
 
 MinKeys(hh, kk) == <<hh.min, KeyOf(kk, hh.min[1], 0), KeyOf(kk, hh.min[2], 1)>>
-Out(op, t, kp, h1, key1) ==
-    IF Emit = "" \/ SimLen > 0 THEN TRUE       \* (simulation mode emits whole behaviours, see EmitHist)
-    ELSE CSVWrite("%1$s;%2$s;%3$s", <<Image(h, key), <<op, t, kp[1], kp[2]>>, Image(h1, key1)>>, Emit)
 
 Step(op, t, kp, h1, key1, ref1) ==
     /\ h' = h1 /\ key' = key1 /\ ref' = ref1
     /\ npok' = ((MinKeys(h, key) # MinKeys(h1, key1)) => h1.np)
-    /\ Out(op, t, kp, h1, key1)
 
 \* op codes: 1 insert, 2 remove, 3 update
 DoInsert(t, kp) ==
@@ -337,6 +333,18 @@ SimNext ==
                                        \o Digest(h', key'))
               /\ dir' = IF Cardinality(ref') = NT THEN "down" ELSE IF ref' = {} THEN "up" ELSE dir
 SimSpec == Init /\ [][SimNext]_vars
+(* test vectors, model-checking mode: one row per distinct state (this is evaluated as an invariant, once
+   per state), holding the image of the state and, for EVERY operation enabled in it, the operation and the
+   image of its successor:   Image ; { <<op, t, target, deadline>> \o Image(successor), ... }               *)
+Succs ==
+    LET h0 == [h EXCEPT !.np = FALSE] IN
+    {<<1, t, kp[1], kp[2]>> \o Image(Insert(h0, [key EXCEPT ![t] = kp], t), [key EXCEPT ![t] = kp])
+        : t \in Timers \ ref, kp \in KeyPairs}
+    \cup {<<3, t, kp[1], kp[2]>> \o Image(Update(h0, [key EXCEPT ![t] = kp], t), [key EXCEPT ![t] = kp])
+        : t \in ref, kp \in KeyPairs}
+    \cup {<<2, t, 0, 0>> \o Image(Remove(h0, key, t), [key EXCEPT ![t] = <<0, 0>>]) : t \in ref}
+EmitState == (Emit # "" /\ SimLen = 0 /\ h.err = "") => CSVWrite("%1$s;%2$s", <<Image(h, key), Succs>>, Emit)
+
 \* a finished simulated behaviour is written out (evaluated as an invariant)
 EmitHist == (Emit # "" /\ Len(hist) = SimLen) =>
                 CSVWrite("%1$s;%2$s", <<hist, Image(h, key)>>, Emit)
